@@ -769,6 +769,11 @@ pub fn c11_check(s: &mut Sink, c: &MemCase, l: &Layout, a: &Arena) {
             }
             vm.register_helper(7, ret_ptr_helper)?;
         }
+        // registered ranges are the interpreter's business: C11 lists packet, metadata buffer and
+        // stack only, so an access into a registered range must trap like any other
+        for (_, st, en) in regions(l, a).iter().filter(|r| r.0 == "allowed") {
+            vm.register_allowed_memory(*st..*en);
+        }
         vm.compile(Eng::Cl)?;
         Ok::<_, String>(vm)
     });
@@ -935,7 +940,12 @@ fn forms() -> Vec<(Acc, u8)> {
 
 pub fn run(s: &mut Sink, cranelift: bool) {
     let thorough = s.tier == Tier::Thorough;
-    let ls = layouts(thorough, !cranelift);
+    let mut ls = layouts(thorough, !cranelift);
+    if cranelift {
+        // two layouts with registered ranges (which Cranelift must go on ignoring)
+        ls.push(Layout { kind: VmKind::Raw, pkt_len: 16, mb_len: 0, allowed: vec![(64, 16)] });
+        ls.push(Layout { kind: VmKind::Mbuff, pkt_len: 16, mb_len: 32, allowed: vec![(64, 8), (76, 8)] });
+    }
     s.meta.insert("alphabet".into(), json!({
         "accesses": "ldx/st/stx/ldabs/ldind x 1,2,4,8 bytes; xadd x 4,8 (naturally aligned only - misalignment is C18's)",
         "addresses": "per region: start+k and end+k for k in -9..=8, start+2^63; 0,1,7,8; u64::MAX-k (k<9); stack: r10+d for d in -521..=-503, -9..=8, -256",
@@ -951,7 +961,7 @@ pub fn run(s: &mut Sink, cranelift: bool) {
     for (li, l) in ls.iter().enumerate() {
         // every shard needs the same arena geometry only within itself: addresses are per process
         let a = Arena::new(l);
-        let ts = targets(l, &a, !cranelift);
+        let ts = targets(l, &a, !cranelift || !l.allowed.is_empty());
         for (fi, (acc, w)) in fs.iter().enumerate() {
             let idx = g;
             g += 1;
